@@ -100,6 +100,9 @@ type Config struct {
 	// compiler folds those: C12's business); constants then appear only as
 	// literal right operands next to a non-constant left operand.
 	NoConst bool
+	// NoModulo: no `%` anywhere, not even to bring a dynamic index into range
+	// (for the GMW target, whose divider is a known finding of C07/C09)
+	NoModulo bool
 }
 
 // DefaultWidths is the width menu of the property statement.
@@ -372,7 +375,7 @@ func (g *gen) indexExpr(arr variable) expr {
 	case k == 1:
 		// dynamic index masked into range
 		idxVars := g.varsOf(func(v variable) bool { return v.t.Kind == KUint && v.t.Bits >= 2 && v.t.Bits <= 64 && !v.loop })
-		if len(idxVars) > 0 && cnt >= 2 {
+		if len(idxVars) > 0 && cnt >= 2 && !(g.cfg.NoModulo && cnt&(cnt-1) != 0) {
 			iv := vrt.Pick(g.r, idxVars)
 			in := iv.name
 			g.feat["index-dynamic"] = true
